@@ -27,6 +27,7 @@ def rules(ctx):
     c063(ctx)
     c064(ctx)
     c065(ctx)
+    c066(ctx)
 
 
 def held_at(ctx, R, f, pts, what, lock=STATE):
@@ -328,3 +329,86 @@ def c065(ctx):
                 ok = g.skey in (KVS + "_memtable_thread",) or g.skey.endswith("KeyValueStore::open")
                 ctx.check(R, g, "other-writer", ok, "state.%s is also written by %s (rollover bump / open)" % (fld, g.skey),
                           "state.%s is written by %s" % (fld, g.skey), pt=pt)
+
+
+# ------------------------------------------------------------------------------------------------
+# C06.6 the memtable: every entry of a batch is inserted; a read seeks (key, timestamp) and answers for that key only
+
+def c066(ctx):
+    R = "C06.6"
+    ctx.declare(R, "the memtable stores every entry of a batch under (key, timestamp) and a timestamped read answers with the first version "
+                   "at or below the timestamp of exactly the key asked for; versions of a key sort newest first")
+    MT = "lsmtk::kvs::memtable::MemTable::"
+    f = ctx.fn(R, MT + "write")
+    if f:
+        heads = [h for h in P.call_points(f, r"Iterator>::next$") if P.reach(f, P.after(f, h), [h])]
+        ins = ctx.calls(R, f, r"skipfree::SkipList.*::insert$")
+        ctx.floor(R, "MemTable::write entry loop", len(heads), 1)
+        for h in heads:
+            q = P.reach(f, P.after(f, h), [h], avoid=set(ins))
+            ctx.check(R, f, "every-entry-inserted", q is None, "every entry of the batch is inserted into the skiplist", "an entry of the batch can be skipped", pt=h, path=q)
+        for pt in ins:
+            t = P.term_at(f, pt)
+            k_ok = any(s_["k"] == "call" and re.search(r"sst::Key as core::convert::From.*>::from$|::from$", s_["callee"]) for s_ in P.origins(f, t["args"][1]))
+            v_ok = any(s_["k"] == "field" and s_["f"] == "value" for s_ in P.origins(f, t["args"][2]))
+            ctx.check(R, f, "insert-operands", k_ok and v_ok, "inserted as (Key::from(entry), entry.value)", "the skiplist entry is not (Key::from(entry), entry.value)", pt=pt)
+    f = ctx.fn(R, MT + "load")
+    if f:
+        sk = ctx.calls(R, f, r"skipfree::SkipListIterator.*::seek$")
+        for pt in sk:
+            t = P.term_at(f, pt)
+            aggs = [s_ for s_ in P.origins(f, t["args"][1]) if s_["k"] == "agg" and s_.get("adt", "").endswith("sst::Key")]
+            ok = False
+            for a in aggs:
+                rv = a["st"]["rv"]
+                fk = rv["ops"][rv["fields"].index("key")]
+                ft = rv["ops"][rv["fields"].index("timestamp")]
+                ok = any(s_["k"] == "param" and s_["i"] == 2 for s_ in P.origins(f, fk)) and any(s_["k"] == "param" and s_["i"] == 3 for s_ in P.origins(f, ft))
+            ctx.check(R, f, "seek-target", ok, "the iterator is positioned at Key { key, timestamp } of the request", "MemTable::load does not seek to (key, timestamp) of the request", pt=pt)
+        # Some(value) is produced only when the iterator is valid and stands on the requested key
+        vals = P.call_points(f, r"Option.*Clone>::clone$|core::clone::Clone::clone$")
+        vals = [p_ for p_ in vals if any(s_["k"] == "call" and s_["callee"].endswith("SkipListIterator::value") for s_ in P.origins(f, P.term_at(f, p_)["args"][0]))]
+        ctx.floor(R, "MemTable::load value hand-out", len(vals), 1)
+        for p_ in vals:
+            valid = K.guarded_by_call(f, p_, r"SkipListIterator.*::is_valid$", label="sw:1")
+            eq = [1 for bb, lab, srcs in K.guards(f, p_) if lab == "sw:1" and any(s_["k"] == "call" and re.search(r"::eq$", s_["callee"]) for s_ in srcs)]
+            ctx.check(R, f, "hit-test", valid is not None and bool(eq), "a value is handed out only when the iterator is valid and its key equals the requested key",
+                      "MemTable::load hands out the value of whatever entry the seek landed on", pt=p_)
+        tw = [w for b in f.blocks for w in [(b.idx, i) for i, st in enumerate(b.st) if st["s"] == "=" and st["lhs"]["l"] == 4 and "*" in st["lhs"]["p"]]]
+        ctx.check(R, f, "tombstone-flag", bool(tw), "the tombstone flag is reported through the out-parameter", "MemTable::load no longer reports tombstones")
+    f = ctx.fn(R, "<lsmtk::kvs::memtable::SkipListIteratorWrapper as sst::Cursor>::seek")
+    if f:
+        for pt in ctx.calls(R, f, r"skipfree::SkipListIterator.*::seek$"):
+            aggs = [s_ for s_ in P.origins(f, P.term_at(f, pt)["args"][1]) if s_["k"] == "agg" and s_.get("adt", "").endswith("sst::Key")]
+            ok = False
+            for a in aggs:
+                rv = a["st"]["rv"]
+                ft = rv["ops"][rv["fields"].index("timestamp")]
+                ok = any(s_["k"] == "const" and (s_.get("v") == (1 << 64) - 1 or "MAX" in str(s_.get("named", ""))) for s_ in P.origins(f, ft))
+            ctx.check(R, f, "seek-newest", ok, "a cursor seek targets (key, u64::MAX): the newest version of the key sorts first", "the memtable cursor's seek does not target the newest version", pt=pt)
+    f = ctx.fn(R, "<sst::KeyRef as core::cmp::Ord>::cmp")
+    if f:
+        rev = ctx.calls(R, f, r"core::cmp::Ordering::reverse$")
+        then = ctx.calls(R, f, r"core::cmp::Ordering::then$")
+        def cmp_of(op, field, depth=0):
+            """(the operand is cmp() of the two sides' `field`, number of Ordering::reverse applied on the way)"""
+            for s_ in P.origins(f, op):
+                if s_["k"] != "call":
+                    continue
+                ck = s_["callee"]
+                if ck.endswith("Ordering::reverse") and depth < 3:
+                    r_ = cmp_of(s_["t"]["args"][0], field, depth + 1)
+                    if r_ is not None:
+                        return r_ + 1
+                if re.search(r"::cmp$", ck) and len(s_["t"]["args"]) == 2:
+                    if all(any(x["k"] == "field" and x["f"] == field for x in P.origins(f, a_)) for a_ in s_["t"]["args"]):
+                        lhs_self = any(x["k"] == "param" and x["i"] == 1 for x in P.origins(f, s_["t"]["args"][0]))
+                        return 0 if lhs_self else 1      # cmp(rhs, self) is one reversal
+            return None
+        ok = False
+        for pt in then:
+            t = P.term_at(f, pt)
+            first, second = cmp_of(t["args"][0], "key"), cmp_of(t["args"][1], "timestamp")
+            ok = first == 0 and second is not None and second % 2 == 1
+        ctx.check(R, f, "key-then-newest-first", ok, "entries order by key ascending, then timestamp descending (newest version first)",
+                  "KeyRef::cmp no longer orders versions of a key newest first: a seek to (key, t) lands on an older or newer version than the newest <= t")
